@@ -219,7 +219,11 @@ class ScriptedBackend : public FlatBackend< MIPBackend<ScriptedBackend> > {
     pre::ValueMapDbl y{cm}; auto mv = GetValuePresolver().PostsolveSolution({ {}, y }); return mv.GetConValues()();
   }
   std::vector<double> ray_;
-  void ComputeIIS() override { }
+  // script key iis_code: the IIS run reports a new status (as real drivers do: "infeasible, IIS returned", ...)
+  void ComputeIIS() override {
+    g_calls.push_back("{\"op\":\"ComputeIIS\"}");
+    if (sget("iis_code", "none") != "none") SetStatus({ std::atoi(sget("iis_code", "0").c_str()), sget("msg", "scripted result") + " (after IIS)" });
+  }
   IIS GetIIS() override {
     if (sget("iis", "none") == "none") return {};
     std::vector<int> variis; for (double d : gen(sget("iis_vars", "zeros"), nvars(), 0, 0)) variis.push_back((int)d);
